@@ -31,6 +31,8 @@ type frame struct {
 	inExc  bool
 	havocExceptional bool // havoc for an exceptional edge (stable-on-return ghosts are not stable)
 	inDeferred int // >0 while a deferred call of this frame is being executed
+	loopCovers map[*loop]*loopCover
+	loopCoverOrder []*loop
 }
 
 type exitEdge struct {
@@ -345,6 +347,8 @@ func (fr *frame) phiValue(phi *ssa.Phi, edges []inEdge) Val {
 	first := true
 	var clo *Closure
 	cloSame := true
+	var alts []CloAlt
+	altsOK := true
 	for i := len(edges) - 1; i >= 0; i-- {
 		e := edges[i]
 		idx := -1
@@ -364,6 +368,16 @@ func (fr *frame) phiValue(phi *ssa.Phi, edges []inEdge) Val {
 		} else if pv.Clo != clo {
 			cloSame = false
 		}
+		switch {
+		case pv.Clo != nil:
+			alts = append(alts, CloAlt{e.cond, pv.Clo})
+		case len(pv.Alts) > 0:
+			for _, a := range pv.Alts {
+				alts = append(alts, CloAlt{and(e.cond, a.Cond), a.Clo})
+			}
+		default:
+			altsOK = false
+		}
 		v := ft.termOf(pv, phi.Type()).S
 		if first {
 			t = v
@@ -382,6 +396,8 @@ func (fr *frame) phiValue(phi *ssa.Phi, edges []inEdge) Val {
 	r := Val{T: Term{ft.define(name, s, t), s}}
 	if cloSame && clo != nil {
 		r.Clo = clo
+	} else if altsOK && len(alts) > 1 && len(alts) <= 8 {
+		r.Alts = alts
 	}
 	return r
 }
@@ -693,7 +709,7 @@ func (fr *frame) indexAddr(t *ssa.IndexAddr, st *State, reach string) Val {
 			fr.oblig("safe/index", []string{"C20"}, t.Pos(), ft.e.lineText(t.Pos()), reach,
 				and(sx("<=", "0", i.S), sx("<", i.S, sx("slen", x.S))))
 		}
-		idx := ft.define("ix", SInt, sx("+", sx("soff", x.S), i.S))
+		idx := ft.define("ix", SInt, sx("ix", x.S, i.S))
 		return Val{LV: &LValue{Heap: h, Keys: []string{sx("sbase", x.S), idx}, Typ: xt.Elem(), Sort: es}}
 	case *types.Pointer:
 		at := xt.Elem().Underlying().(*types.Array)
@@ -1304,11 +1320,25 @@ func (fr *frame) assertTarget(a *Clause) *ssa.Call {
 		return nil
 	}
 	l := byLine[lines[a.Occ-1]]
-	// choose the call whose callee name occurs in the site text, else the last
+	// choose the call whose callee name occurs (first) in the site text, else the last
+	var best *ssa.Call
+	bestAt := -1
 	for _, c := range l {
-		if sc := c.Call.StaticCallee(); sc != nil && strings.Contains(a.Site, sc.Name()+"(") {
-			return c
+		name := ""
+		if sc := c.Call.StaticCallee(); sc != nil {
+			name = sc.Name()
+		} else if b, ok := c.Call.Value.(*ssa.Builtin); ok {
+			name = b.Name()
 		}
+		if name == "" {
+			continue
+		}
+		if at := strings.Index(a.Site, name+"("); at >= 0 && (bestAt < 0 || at < bestAt) {
+			best, bestAt = c, at
+		}
+	}
+	if best != nil {
+		return best
 	}
 	return l[len(l)-1]
 }
